@@ -31,8 +31,8 @@ ASSUMPTIONS = ['identity tolerance 1e-8 relative; estimate tolerance 1e-6 relati
                '(statsmodels pinv OLS on deliberately ill-conditioned data)',
                'residual variance > 0 (|corr| <= 0.9999)']
 EXHAUSTIVE = {'quick': False, 'thorough': False}
-MINIMA = {'quick': {'object_reuse': 600, 'identity_checked': 1500, 'tbr_fits': 1500, 'distinct_nontrivial': 1000, 'metamorphic_checked': 1500},
-          'thorough': {'object_reuse': 9000, 'identity_checked': 25000, 'tbr_fits': 25000, 'distinct_nontrivial': 15000, 'metamorphic_checked': 25000}}
+MINIMA = {'quick': {'buffer_edits': 300, 'object_reuse': 600, 'identity_checked': 1500, 'tbr_fits': 1500, 'distinct_nontrivial': 1000, 'metamorphic_checked': 1500},
+          'thorough': {'buffer_edits': 5000, 'object_reuse': 9000, 'identity_checked': 25000, 'tbr_fits': 25000, 'distinct_nontrivial': 15000, 'metamorphic_checked': 25000}}
 N = {'quick': 2000, 'thorough': 30000}
 
 
@@ -117,7 +117,15 @@ def run_case(spec):
     counters['object_reuse'] += 1
   else:
     diag = dmod.TBRMMDiagnostics(y_pre, par)
-  diag.x = x_pre
+  if r.random() < 0.3:
+    # the caller hands over a work buffer and re-uses it afterwards: the object must keep the series it was given
+    xbuf = np.array(x_pre, dtype=float)
+    diag.x = xbuf
+    xbuf *= 0.5
+    xbuf += 11.0
+    counters['buffer_edits'] += 1
+  else:
+    diag.x = x_pre
   ri = float(diag.required_impact)
   corr = float(diag.corr)
   ref = tbrref.Ref(x_pre, y_pre, x_pre[:1], y_pre[:1])
@@ -183,7 +191,7 @@ def run_case(spec):
       add('lower', 'summary-lower', 'one-sided lower bound at level sig_level is %.12g, t_pow x scale=%.12g' % (low, want_low))
   # ---- metamorphic relations on the design side
   counters['metamorphic_checked'] += 1
-  k = r.randrange(-3, 13)
+  k = r.choice([r.randrange(-3, 13), r.randrange(-3, 13), r.randrange(-50, -20), r.randrange(20, 40)])
   c = 2.0 ** k
   if r.random() < 0.5:
     d2 = diag
